@@ -45,7 +45,7 @@ pub proof fn lemma_route_contiguous(g: &Graph, fm: &FrontierModel, d: Direction,
         forall|i: int| 0 <= i < route.len() ==> term_spec(d, edge_of(g, #[trigger] route[i].edge_id)) == vs[i] && key_spec(d, edge_of(g, route[i].edge_id)) == vs[i + 1],
         // hence: first edge leaves the source, consecutive edges share a vertex, last edge arrives at the target
         route.len() > 0 ==> term_spec(d, edge_of(g, route[0].edge_id)) == source && key_spec(d, edge_of(g, route.last().edge_id)) == target,
-        forall|i: int| 0 <= i < route.len() - 1 ==> key_spec(d, edge_of(g, #[trigger] route[i].edge_id)) == term_spec(d, edge_of(g, route[i + 1].edge_id)),
+        forall|i: int| 0 <= i < route.len() - 1 ==> #[trigger] key_spec(d, edge_of(g, route[i].edge_id)) == term_spec(d, edge_of(g, route[i + 1].edge_id)),
         forall|i: int| 0 <= i < route.len() ==> has_edge(g, #[trigger] route[i].edge_id),
 {
     assert forall|i: int| 0 <= i < route.len() implies term_spec(d, edge_of(g, #[trigger] route[i].edge_id)) == vs[i] && key_spec(d, edge_of(g, route[i].edge_id)) == vs[i + 1]
